@@ -1933,9 +1933,13 @@ func (g Gateway) Uint32SliceDelete(ctx context.Context, in *hydrapb.Uint32SliceD
 			treasureObj.Save(guardID)
 
 			// check the length of the slice in the treasure
-			// if the length is 0, we can delete the treasure
+			// if the length is 0, we can delete the treasure. A treasure that is not a uint32
+			// slice (err != nil) is left alone: it is not an "empty slice".
 			size, err := treasureObj.Uint32SliceSize()
-			if err != nil || size == 0 {
+			if err == nil && size == 0 {
+				// DeleteTreasure takes the treasure guard itself, so the guard must be released
+				// first; the deferred release of the same ID is then a no-op.
+				treasureObj.ReleaseTreasureGuard(guardID)
 				// delete the treasure
 				if err := swampObj.DeleteTreasure(pair.GetKey(), false); err != nil {
 					errorsWhileDelete = append(errorsWhileDelete, err.Error())
